@@ -42,6 +42,16 @@ def _init():
 
 
 # ------------------------------------------------------------------ normalisation of benign differences
+_FTS_ALL = ('list', ('ParamConstant', ('type_', ('str', 'PARAM_TIMESERIES')), ('value', ('str', 'all'))))
+
+
+def _norm_fts(c):
+    out = [c[0]]
+    for k, v in c[1:]:
+        out.append((k, ('list',) if (k == 'params' and v == _FTS_ALL) else normalise(v)))
+    return tuple(out)
+
+
 def normalise(c):
     """canon() value -> same with `None` for explicit default modes of check_hierarchy/hierarchy/check_datapoint"""
     if not isinstance(c, tuple):
@@ -59,6 +69,20 @@ def normalise(c):
             if dflt is not None and v == dflt:
                 v = ('NoneType', None)
             out.append((k, normalise(v)))
+        return tuple(out)
+    if c and c[0] == 'ParamOp' and ('op', ('str', 'fill_time_series')) in c:
+        # `fill_time_series(x)` == `fill_time_series(x, all)` (Interpreter: mode = … if len(params) == 1 else "all")
+        return _norm_fts(c)
+    if c and c[0] == 'HRuleset':
+        # create_ast() topologically sorts the rules of a hierarchical ruleset (DAG.sort_hr_rules); any such
+        # order denotes the same ruleset, so rules are compared as a multiset
+        out = [c[0]]
+        for k, v in c[1:]:
+            if k == 'rules' and isinstance(v, tuple) and v and v[0] == 'list':
+                v = ('list',) + tuple(sorted((normalise(x) for x in v[1:]), key=repr))
+            else:
+                v = normalise(v)
+            out.append((k, v))
         return tuple(out)
     return tuple(normalise(x) for x in c)
 
@@ -79,8 +103,7 @@ def eval_script(args):
     import eng
     from vtlengine import prettify
     from vtlengine.API import create_ast
-    from vtlengine.AST import Comment
-    from vtlengine.AST.ASTComment import create_ast_with_comments
+    import vtlstub
     r = {'tag': tag, 'fails': [], 'status': 'ok'}
     try:
         with tc.guard(SCRIPT_BUDGET):
@@ -125,18 +148,22 @@ def eval_script(args):
                 raise
             except Exception as e:  # noqa: BLE001
                 r['fails'].append({'pred': 'prettify-of-output-raises', 'exc': type(e).__name__, 'site': _site(e), 'msg': str(e)[:160]})
-            cm0 = sorted(c.value.rstrip() for c in create_ast_with_comments(txt).children if isinstance(c, Comment))
-            cm1 = sorted(c.value.rstrip() for c in create_ast_with_comments(p1).children if isinstance(c, Comment))
+            # comment tokens of the source vs of the output (prettify took them from the same hidden channel)
+            cm0 = sorted(c['text'].rstrip() for c in vtlstub.lex(txt + '\n')[1])
+            cm1 = sorted(c['text'].rstrip() for c in vtlstub.lex(p1 + '\n')[1])
             r['ncomments'] = len(cm0)
             if cm0 != cm1:
                 r['fails'].append({'pred': 'comments-differ', 'a': cm0[:6], 'b': cm1[:6]})
         if data is not None and not r['fails']:
-            with tc.guard(90):
-                o0 = run_outcome(txt, data)
-                o1 = run_outcome(p1, data)
+            try:
+                with tc.guard(120):
+                    o0 = run_outcome(txt, data)
+                    o1 = run_outcome(p1, data)
                 r['run'] = o0[0]
                 if not same_outcome(o0, o1):
                     r['fails'].append({'pred': 'run-differs', 'a': tc._short(o0, 300), 'b': tc._short(o1, 300)})
+            except tc.Timeout:
+                r['run'] = 'timeout (not compared)'
         if r['fails']:
             r['status'] = 'fail'
     except tc.Timeout:
@@ -151,6 +178,8 @@ def run_outcome(script, data):
     from vtlengine import run
     o = eng.outcome(run, script=script, data_structures=data['structures'], datapoints=data['datapoints'],
                     return_only_persistent=False)
+    if o[0] == 'raw' and ('Timeout' in o[1] or 'interrupted' in str(o[2]).lower()):
+        raise tc.Timeout()      # the wall-clock guard fired inside DuckDB / the engine: not an outcome
     if o[0] != 'ok':
         return o[:3]
     res = {}
@@ -212,6 +241,22 @@ def corpus_data(path):
 def classify(f, txt='', p1=None):
     """failure record -> (key, what, genuine)"""
     p = f['pred']
+    EXP = r'(?<![A-Za-z_\'"])\d+(\.\d+)?e[+-]\d\d'
+    if p in ('output-unparseable', 'ast-differs', 'not-idempotent') and p1 and re.search(EXP, p1) and not re.search(EXP, txt):
+        return ('ASTString:_handle_literal:exponent notation emitted (:g, >=1e6)',
+                'a Number literal >= 1e6 is printed in exponent notation (e.g. 1.23457e+06), which VTL lexes as identifier + number', True)
+    if p in ('output-unparseable', 'ast-differs') and p1:
+        bare1, bare0 = re.sub(r'"[^"]*"', '""', p1), re.sub(r'"[^"]*"', '""', txt)
+        m = re.search(r'(?<![A-Za-z_.\d])(\d+)\.(?![\d])', bare1)
+        if m and not re.search(r'(?<![A-Za-z_.\d])(\d+)\.(?![\d])', bare0):
+            if m.group(1) == '0':
+                return ("ASTString:_handle_literal:tiny float renders as '0.' (not a token)",
+                        'prettify output does not parse: a small Number literal is printed as `0.`', True)
+            return ("ASTString:_handle_literal:renders as 'N.' with a dangling '.' (not a token)",
+                    'prettify output does not parse: a Number literal is printed as `N.` (all fractional digits stripped)', True)
+    if p == 'not-idempotent' and p1 and 'hierarchical ruleset' in p1 and sorted(x[1:] for x in f['diff'] if x[:1] == '-' and x[:3] != '---') == sorted(x[1:] for x in f['diff'] if x[:1] == '+' and x[:3] != '+++'):
+        return ('DAG:sort_hr_rules:rule order not stable, prettify(prettify(s)) reorders the rules of a hierarchical ruleset again',
+                'prettify is not idempotent on a hierarchical ruleset: the topological rule order printed by the first pass is changed by the second', True)
     if p in ('prettify-raises', 'prettify-of-output-raises'):
         site, exc = f.get('site', '?'), f['exc']
         if site.endswith('_handle_literal') and exc == 'IndexError':
@@ -234,9 +279,10 @@ def classify(f, txt='', p1=None):
         if p1 and re.search(r'\d(\.\d+)?e[+-]\d\d', p1) and tok and tok.group(1).startswith('e'):
             return ('ASTString:_handle_literal:exponent notation emitted (:g, >=1e6)',
                     'prettify output does not parse: a Number literal >= 1e6 is printed in exponent notation (e.g. 1.23457e+06)', True)
-        if "token recognition error at: '.'" in m or re.search(r"\b0\.\s*[;\]\),]", line):
-            return ("ASTString:_handle_literal:tiny float renders as '0.' (not a token)",
-                    'prettify output does not parse: a small Number literal is printed as `0.`', True)
+        qn = quoted_names_needing_quotes(txt)
+        if qn and tok and any(tok.group(1) in q.split() or q.startswith(tok.group(1)) or tok.group(1) in q for q in qn):
+            return ('ASTString:visit_VarID/_format_reserved_word:quoted identifier that is not a regular identifier printed without quotes',
+                    "prettify output does not parse: a name that needs quotes (e.g. 'DS 4', '1x') is printed bare", True)
         return ('prettify output unparseable near %r' % (tok.group(1) if tok else line[:30]), 'prettify output does not parse: ' + m[:200], True)
     if p == 'ast-differs':
         path, a, b = f['path'], f['a'], f['b']
@@ -253,6 +299,9 @@ def classify(f, txt='', p1=None):
         if path.endswith('isLast/bool[0]') or '.isLast' in path:
             return ('ASTString:visit_RegularAggregation:aggr in join body printed after the join',
                     '`inner_join(a, b aggr …)` is printed as `inner_join(a, b)[aggr …]` (clause moved out of the join body)', True)
+        if '_right_condition' in path or '_right_condition' in a + b:
+            return ('ASTString:visit_DefIdentifier:condition of a code item in a hierarchical rule dropped',
+                    '`A = B[Id_2 = "y"] + C` is printed as `A = B + C`: the rightCondition of the code item is lost', True)
         if 'EnumeratedVpClause.values' in path and 'None' in a + b:
             return ('ASTString:visit_ViralPropagationDef:null condition printed as "None"',
                     '`when null then …` of a viral propagation is printed as `when "None" then …`', True)
@@ -264,6 +313,15 @@ def classify(f, txt='', p1=None):
     if p == 'run-differs':
         return ('run() of prettified script differs', 'run differs: %s vs %s' % (f['a'][:150], f['b'][:150]), True)
     return ('unclassified ' + p, str(f)[:200], True)
+
+
+def quoted_names_needing_quotes(txt):
+    out = []
+    for m in re.finditer(r"'((?:\\'|[^'])*)'", re.sub(r'"[^"]*"', '""', txt)):
+        q = m.group(1)
+        if not re.fullmatch(r'[A-Za-z][A-Za-z0-9_.]*', q) and q not in G.RESERVED:
+            out.append(q)
+    return out
 
 
 def lit_class(a, b):
@@ -424,13 +482,14 @@ def main(ck):
     model_bad = []
 
     # ---- A / B on generated trees
-    bad, stats = tie_trees(ck, 400 if quick else 3000)
+    bad, stats = tie_trees(ck, 300 if quick else 3000)
     model_bad += bad
     ck.note('tie_trees', dict(stats))
 
     files = tc.corpus_files(vlib.REPO)
     if quick:
-        files_s = ck.rng.sample(files, min(320, len(files)))
+        small = [f for f in files if os.path.getsize(f) < 6000]
+        files_s = ck.rng.sample(small, min(160, len(small)))
     else:
         files_s = files
     with mp.Pool(14, initializer=_init) as pool:
@@ -450,7 +509,7 @@ def main(ck):
         # ---- S the property on scripts
         jobs = []
         n_data = 0
-        data_budget = 60 if quick else 700
+        data_budget = 40 if quick else 700
         for p in files_s:
             try:
                 txt = open(p, encoding='utf-8-sig', errors='replace').read()
@@ -461,7 +520,7 @@ def main(ck):
                 data = corpus_data(p)
                 if data is not None: n_data += 1
             jobs.append(('corpus:' + os.path.relpath(p, vlib.REPO), txt, data))
-        n_gen = 500 if quick else 6000
+        n_gen = 260 if quick else 6000
         for i in range(n_gen):
             jobs.append(('gen:%d' % i, G.script(ck.rng), None))
         for s in REGRESSION:
@@ -485,7 +544,7 @@ def main(ck):
         ck.count((fam, tuple(r.get('kinds', [])), r.get('nstmts'), r['status'], r.get('ncomments', 0) > 0))
         if r['status'] == 'ok' and fam == 'corpus':
             ck.sample({'script': tag, 'statements': r.get('nstmts'), 'comments': r.get('ncomments'), 'run_compared': 'run' in r}, cap=4)
-        for f in r['fails']:
+        for f in r['fails'][:1]:       # the first failed predicate is the root cause; later ones follow from it
             key, what, genuine = classify(f, txt, r.get('p1'))
             ck.violation(key, {'script': txt if len(txt) < 20000 else tag, 'source': tag, 'failure': f,
                                'prettified': r.get('p1'), 'how': 'vtlengine.prettify(script) under harness/eng.py'}, what)
